@@ -62,3 +62,12 @@ Proof.
   - rewrite proxy_xhr_json_ok, str_eqb_refl. reflexivity.
   - rewrite auth_error_json_ok, str_eqb_refl. reflexivity.
 Qed.
+
+(* a call site whose page is independent of the hostile inputs: same bytes as the benign run, and
+   (being a rendering of a safe template) ending in the data state *)
+Lemma judge_same_model svc site real segs :
+  rebuild real segs = real -> final_state real = SData -> judge (CSame svc site real segs) = 0.
+Proof.
+  intros R F. cbn [judge]. rewrite R, str_eqb_refl. unfold page_inert.
+  rewrite evs_eqb_refl, F. reflexivity.
+Qed.
